@@ -197,8 +197,13 @@ def run_paths(ctx, rng):
         try:
             for sub in ("dir", "o", "r", "dir/r"):
                 os.makedirs(os.path.join(d, sub), exist_ok=True)
+            # the load address the source states: the default, zero, small, near the top (the image does not depend on it)
+            lb = rng.choice([None, None, 0, 0, 2, 0o177000, 0o100000])
+            base = 0o1000 if lb is None else lb
+            src_c = ("" if lb is None else rng.choice([".link %o\n" % lb, ". = %o\n" % lb])) + SRC
+            ctx.count("path-cases linked at %s" % ("the default" if lb is None else "%o" % lb))
             with open(os.path.join(d, main), "w", encoding="utf-8") as f:
-                f.write(SRC + extra)
+                f.write(src_c + extra)
             # what an earlier build left behind must not matter: some targets exist already, longer than the new contents
             # and beginning with them, equal to them, or holding something else
             stale = {}
@@ -226,7 +231,7 @@ def run_paths(ctx, rng):
             key = (main, extra, tuple(argv))
             ctx.case(key)
             ctx.count("path-cases")
-            inp = {"main": main, "source": SRC + extra, "argv": [main] + argv, "targets_existing_before": stale}
+            inp = {"main": main, "source": src_c + extra, "argv": [main] + argv, "targets_existing_before": stale}
             if res.exit != 0:
                 ctx.violation("a run with only valid input failed", inp, expected="exit 0", observed={"exit": res.exit, "stderr": res.stderr[-300:], "exc": res.exc})
                 continue
